@@ -162,14 +162,8 @@ def oracle(case, impl_res):
     return expect_dump(table, "final")
 
 def shrink(case, fails):
-    """Greedy: drop ops while the failure persists."""
-    ops = list(case["ops"]); changed = True
-    while changed and len(ops) > 1:
-        changed = False
-        for i in range(len(ops) - 1, -1, -1):
-            c2 = dict(case, ops=ops[:i] + ops[i + 1:])
-            if fails(c2): ops = c2["ops"]; changed = True; break
-    return dict(case, ops=ops)
+    from harness.shrink import shrink_list
+    return dict(case, ops=shrink_list(case["ops"], lambda opss: fails([dict(case, ops=o) for o in opss])))
 
 def stats(cases):
     from collections import Counter
